@@ -44,7 +44,9 @@ def check_fit(ctx, model, case, V, rec, label=''):
     want = model('fit_samples', xb.tolist(), tb.tolist(), [None if v != v else float(v) for v in z.tolist()], golden=(X * T <= 9 and len(model.golden) < 20))
     ctx.disagreements_checked += 1
     Vx, Vt = V.XMarginal.fitted_model, V.TMarginal.fitted_model
-    par = dict(V._model_params)
+    # the documented combination uses the SILLS of the two marginal variograms (not whatever the instance keeps internally)
+    par = {'Cx': float(V.XMarginal.describe()['sill']), 'Ct': float(V.TMarginal.describe()['sill'])}
+    ctx.count('marginal_nugget', bool(case.get('use_nugget')))
     cof = [float(x) for x in (V.cof if V.cof is not None else [])]
     mname = case['model'].replace('-', '_')
     if rec.calls:
@@ -71,6 +73,9 @@ def check_fit(ctx, model, case, V, rec, label=''):
         gt = np.array([float(Vt(b)) for _, b, _ in wl])
         y = np.array([c for _, _, c in wl])
         A = np.column_stack((par['Ct'] * gx + par['Cx'] * gt - gx * gt, gx, gt))
+        if np.linalg.cond(A) > 1e8:
+            ctx.count('degenerate_design_skipped')          # collinear columns (e.g. a single space lag): the optimum is not unique / at infinity
+            return True
         opt = lsq_linear(A, y, bounds=(0, np.inf))
         sse_opt = float(np.sum((A.dot(opt.x) - y) ** 2))
         sse = float(np.sum((A.dot(np.array(cof)) - y) ** 2))
@@ -119,8 +124,25 @@ def run(ctx, replay=None):
                     if ok and rng.random() < 0.6:
                         rec.calls.clear()
                         newx = case['x_lags'] + 1 if case['x_lags'] < 5 else case['x_lags'] - 1
+                        # a model function obtained earlier keeps denoting the model it was obtained for
+                        xb0, tb0 = np.asarray(V.xbins, float), np.asarray(V.tbins, float)
+                        probe = np.array([[float(xb0[0]) * 0.5, float(tb0[0])], [float(xb0[-1]), float(tb0[-1]) * 0.5], [float(xb0[-1]) * 0.75, float(tb0[0]) * 0.5]])
+                        f_old, v_old = None, None
+                        try:
+                            f_old = V.fitted_model
+                            v_old = np.asarray(f_old(probe), float).ravel()
+                        except Exception:
+                            f_old = None
                         V.x_lags = newx
                         V.fit()
+                        if f_old is not None:
+                            try:
+                                v_again = np.asarray(f_old(probe), float).ravel()
+                                if len(v_again) != len(v_old) or not all(gen.close(a, b, 1e-12, 1e-12) for a, b in zip(v_old, v_again)):
+                                    ctx.problem('oracle', 'a fitted-model function obtained before a re-fit of the same instance evaluates differently afterwards', dict(case, x_lags_after=newx),
+                                                {'before': v_old.tolist(), 'after': v_again.tolist()}, {'what': 'earlier-model-function-changed'})
+                            except Exception as e:
+                                ctx.problem('oracle', 'a fitted-model function obtained before a re-fit raises afterwards: %s' % type(e).__name__, dict(case, x_lags_after=newx), None, {'what': 'earlier-model-function-changed'})
                         check_fit(ctx, model, dict(case, x_lags_after=newx), V, rec, label=' (after x_lags was changed and fit() called again)')
             except Exception as e:
                 ctx.count('rejected', type(e).__name__ + ':' + str(e)[:40])
